@@ -5,7 +5,7 @@ from .. import common, build, lean, check, script
 
 MODULE = "Dbus.Props.C20"
 THEOREMS = ["step_refines", "tree_refines_set", "dispatch_order_eq_spec", "invoke_stops_at_first_taker",
-            "error_choice_structural", "below_fallback_found", "registered_found"]
+            "error_choice_structural", "below_fallback_found", "registered_found", "no_dead_branch", "children_eq_spec"]
 NAMES = ["a", "aa", "a_", "ab", "b", "B", "_", "a0", "z"]
 
 
